@@ -655,7 +655,9 @@ def gen_history(i):
     rnd = env.rng("C15", i)
     nrec = rnd.choice([2, 2, 3, 3, 4, 5])
     recipes = [gen_recipe(rnd, FORMATS[i % 5] if k == 0 else rnd.choice(FORMATS), k) for k in range(nrec)]
-    stems = ["picture", "img"]
+    # "whatever the file was called": names with markup characters, non-ASCII, a control character, and a name that is not
+    # UTF-8 on disk (b"caf\xe9", which Python hands over as 'caf\udce9') - all names of existing files on this platform
+    stems = ["picture", "img", "picture", "img", "a&b<c>\"q'", "na\u00efve \u56fe", "scan\x01", "caf\udce9"]
 
     def via(k):
         fmt = recipes[k]["fmt"]
